@@ -739,7 +739,11 @@ fn check_compressed_records(
         if out.hdr && out.items.len() != whole && !matches!(out.stop, Stop::Err(_)) {
             fails.push((format!("{fmt}-truncation-lost-record"), format!("cut {k}: {} of {whole} complete records returned, then {}", out.items.len(), out.stop.text())));
         }
-        if out.hdr && bstop == Stop::Eof && !at_boundary && out.stop == Stop::Eof {
+        // (a stream that ends inside the *header* while the header reader still succeeds -- the BCF
+        // header text is read through io::Take, so a missing NUL terminator is tolerated -- and
+        // that then yields no record and a clean end satisfies the statement: a prefix of the
+        // records, then end of input; the sharper clause is about a stream ending inside a record)
+        if out.hdr && bstop == Stop::Eof && !at_boundary && out.stop == Stop::Eof && (n >= hdr_len || !out.items.is_empty()) {
             let last = rec_ends.iter().copied().filter(|&e| e <= n).max().unwrap_or(hdr_len);
             let tag = if n < hdr_len { format!("{fmt}-truncated-header-clean-eof") } else { mid_record_tag(fmt, &path, n - last) };
             fails.push((tag, format!("cut {k} ({path} reader): the decompressed stream ends at {n}, {} bytes into a record, but the reader reports a clean end after {} records", n - last.min(n), out.items.len())));
@@ -1592,8 +1596,14 @@ fn generate(rng: &mut Rng, tier: &str, w: &mut CaseWriter) {
         let (raw, hdr, _) = files::bcf_raw(&text);
         let breaks = files::random_breaks(rng, raw.len(), 5);
         let file = files::bgzip(&raw, &breaks, rng.chance(3, 4));
-        let cuts = if file.len() <= 4096 { "all".to_string() } else { fmt_cuts(&choose_cuts(rng, file.len(), &files::bgzf_boundaries(&file), 100)) };
-        w.push("bcfz", vec![hex(&file), hdr.to_string(), inflate_table(&file), cuts]);
+        // the model takes "header unreadable" = fewer than hdr bytes delivered; the real BCF header
+        // reader reads the header text through io::Take, so a stream that ends inside the last
+        // header line or before the NUL terminator can still give a (different) header: the header
+        // parser is not modelled, cuts that deliver only a part of the header text are left to the
+        // oracle of this kind's L3 verdict on the other cuts and to the `file` kind
+        let cuts: Vec<usize> = if file.len() <= 4096 { (0..=file.len()).collect() } else { choose_cuts(rng, file.len(), &files::bgzf_boundaries(&file), 100) };
+        let cuts: Vec<usize> = cuts.into_iter().filter(|&k| { let n = bgzf_stream(&file[..k]).0.len(); !(9 <= n && n < hdr) }).collect();
+        w.push("bcfz", vec![hex(&file), hdr.to_string(), inflate_table(&file), fmt_cuts(&cuts)]);
     }
 
     // --- modelled: BAI
